@@ -455,6 +455,13 @@ impl Model {
         out
     }
 
+    /// does something needed from `roots` depend on an invalidated node (so that an observer is to
+    /// read ObservingInvalid)?
+    pub fn cone_touches_invalid(&self, roots: &[Tag]) -> bool {
+        let mut memo = HashMap::new();
+        self.cone(roots).iter().any(|t| !self.node(*t).valid || !self.valid_when_linked(*t, &mut memo))
+    }
+
     /// nodes kept alive through strong references from `roots` (handles, observed nodes):
     /// inputs, a bind's current right-hand side, and whatever closures own
     pub fn strongly_reachable(&self, roots: &[Tag]) -> Vec<bool> {
